@@ -3,6 +3,7 @@ from .common import *
 from ..nativeio import differential
 
 ID = "C14"
+NATIVE_BOUNDED = (30, 300)        # (quick, thorough) native corpus sizes - bounded stand-in for rounding effects
 MIN_OBLIGATIONS = 40
 UNITS = ['kg/(m2*h*kPa)', 'SI', 'GPU']
 
